@@ -1,12 +1,14 @@
 #!/bin/sh
 # usage: tools/seeded_sweep.sh [tier] [P] [ids...]  -- run every seeded change (or the listed ones) through its property's check
-# in scratch worktrees; C08/C20 (which rewrite Generated/) are run one at a time after the parallel batch.
+# in scratch worktrees.  Changes of ONE property run one after the other (a check regenerates Generated/* of its property from the
+# tree it is pointed at; two changed trees of the same property must not do that at the same time); properties run in parallel.
 tier="${1:-quick}"; P="${2:-6}"; shift; shift
 cd "$(dirname "$0")/.." || exit 2
 ids="$*"; [ -z "$ids" ] && ids="$(ls seeded)"
-par=""; seq_=""
-for i in $ids; do case "$i" in C08*|C20*) seq_="$seq_ $i";; *) par="$par $i";; esac; done
 out=/tmp/seeded_sweep; mkdir -p $out
-echo $par | tr ' ' '\n' | grep . | xargs -P "$P" -I{} sh -c "/venv/bin/python tools/seeded.py run {} $tier > $out/{}.log 2>&1"
-for i in $seq_; do /venv/bin/python tools/seeded.py run $i $tier > $out/$i.log 2>&1; done
+props=$(for i in $ids; do echo "$i" | cut -c1-3; done | sort -u)
+for p in $props; do
+  l=""; for i in $ids; do case "$i" in $p-*) l="$l $i";; esac; done
+  echo "$l"
+done | xargs -P "$P" -I{} sh -c "for i in {}; do /venv/bin/python tools/seeded.py run \$i $tier > $out/\$i.log 2>&1; done"
 echo "seeded sweep done"
